@@ -880,6 +880,8 @@ def correspond(ctx):
                 "sum/prod/amax/amin(axis, keepdims), clamp; same class with other parameters, same parameters twice, inverse pairs "
                 "neg/neg, reciprocal/reciprocal, exp/log; triples) on asymmetric data with non-cubic event shapes, checked "
                 "against a numpy oracle (python-oracle route: Lean's Term lacks these ops), "
+                "1/24 ground tensors with -inf cells and rows, +inf and nan under t-t, (t+u)-t, (t-t)+u, -t-(-t), t+(-t), max/min "
+                "repeats and a reduction of t-t (nan == nan, inf == inf exactly; reference = eager build), "
                 "1/12 user-defined terms made with funsor.factory.make_funsor (15 classes: every declaration order of Bound / "
                 "Funsor / Has / Fresh parameters, one and two binders, Fresh output names; bare, followed by .reduce(op) over ALL "
                 "inputs, by (t+z).reduce(op), or by substituting an index tensor that depends on a free variable named like the "
